@@ -27,6 +27,8 @@ SCOPE_THEOREMS = [
     "Ffcx.LNodes.scopedL_flat_faithful",
     "Ffcx.LNodes.kernel_scoped_sound",
     "Ffcx.LNodes.assign_run_undeclared_visible",
+    "Ffcx.LNodes.scoped_tight",
+    "Ffcx.LNodes.kernel_tight",
     "Ffcx.LNodes.kernel_flat_faithful",
     "Ffcx.LNodes.flat_unfaithful_shadow_counterexample",
     "Ffcx.LNodes.flat_unfaithful_kind_counterexample",
@@ -40,6 +42,7 @@ SCOPE_FILES = [str(_LEAN / f) for f in (
     "FfcxProofs/Lemmas/ScopeBase.lean",
     "FfcxProofs/Lemmas/ScopeSound.lean",
     "FfcxProofs/Lemmas/ScopeFlat.lean",
+    "FfcxProofs/Lemmas/ScopeTight.lean",
 )]
 
 PARAMS = ("A", "w", "c", "coordinate_dofs", "entity_local_index", "quadrature_permutation")
@@ -68,9 +71,53 @@ def parse_reply(r):
     }
 
 
+def new_summary():
+    return {"kernels": 0, "certified": 0, "shadowing": [], "failed": []}
+
+
+def check_scope_kernel(chk, d, c, tag, entry_name, summary):
+    """One kernel case `c` (harness.kernels case; `tag` = "opt"/"noopt"). Usable from inside another
+    loop over the kernels (e.g. c19.scoped_all) to avoid generating every kernel twice."""
+    r = d.ask(f"(scopecert {c.ast_sexp})")
+    p = parse_reply(r)
+    summary["kernels"] += 1
+    key = f"{c.name}:{tag}"
+    if p is None:
+        chk.disagree("scope certificate: driver could not evaluate the kernel", {"kernel": key, "reply": r})
+        summary["failed"].append(key)
+        return False
+    shadows = bool(p["names"])
+    # distinct non-trivial = a kernel in which some visible name really is shadowed/clobbered
+    chk.case("scopecert", key if shadows else None,
+             sample={"kernel": key, "reply": r} if shadows and len(chk.samples) < 4 else None)
+    if shadows:
+        summary["shadowing"].append({"kernel": key, "names": p["names"]})
+    if not p["scoped"]:
+        return False  # reported as a violation by c19.scoped_all; nothing to certify
+    if p["cert"]:
+        summary["certified"] += 1
+        return True
+    if not p["kinds"]:
+        why = "a name is declared with two different kinds"
+    elif not p["clob_ok"]:
+        why = f"`{p['names'][0] if p['names'] else '?'}` is used after an inner block re-declared it (flat store holds the inner value)"
+    else:
+        why = f"kernel parameter clobbered at the end: {[n for n in p['names'] if n in PARAMS]}"
+    summary["failed"].append(key)
+    chk.disagree("flat semantics not certified faithful to C block scoping: " + why,
+                 {"kernel": c.name, "variant": tag, "entry": entry_name, "reply": r})
+    return False
+
+
+def note_summary(chk, summary):
+    chk.notes["scope_kernels"] = summary["kernels"]
+    chk.notes["scope_certified"] = summary["certified"]
+    chk.notes["scope_shadowing_kernels"] = [s["kernel"] for s in summary["shadowing"]]
+
+
 def check_scope_certificates(chk, d, entries):
     """Evaluate the certificates on every kernel of `entries` (opt + noopt). Returns a summary dict."""
-    summary = {"kernels": 0, "certified": 0, "shadowing": [], "failed": []}
+    summary = new_summary()
     for e in entries:
         try:
             variants = list(_variants(e))
@@ -79,38 +126,8 @@ def check_scope_certificates(chk, d, entries):
             continue
         for tag, cases in variants:
             for c in cases:
-                r = d.ask(f"(scopecert {c.ast_sexp})")
-                p = parse_reply(r)
-                summary["kernels"] += 1
-                key = f"{c.name}:{tag}"
-                if p is None:
-                    chk.disagree("scope certificate: driver could not evaluate the kernel", {"kernel": key, "reply": r})
-                    summary["failed"].append(key)
-                    continue
-                shadows = bool(p["names"])
-                # distinct non-trivial = a kernel in which some visible name really is shadowed/clobbered
-                chk.case("scopecert", key if shadows else None,
-                         sample={"kernel": key, "reply": r} if shadows and len(chk.samples) < 4 else None)
-                if shadows:
-                    summary["shadowing"].append({"kernel": key, "names": p["names"]})
-                if not p["scoped"]:
-                    # reported as a violation by c19.scoped_all; nothing to certify
-                    continue
-                if p["cert"]:
-                    summary["certified"] += 1
-                    continue
-                if not p["kinds"]:
-                    why = "a name is declared with two different kinds"
-                elif not p["clob_ok"]:
-                    why = f"`{p['names'][0] if p['names'] else '?'}` is used after an inner block re-declared it (flat store holds the inner value)"
-                else:
-                    why = f"kernel parameter clobbered at the end: {[n for n in p['names'] if n in PARAMS]}"
-                summary["failed"].append(key)
-                chk.disagree("flat semantics not certified faithful to C block scoping: " + why,
-                             {"kernel": c.name, "variant": tag, "entry": e.name, "reply": r})
-    chk.notes["scope_kernels"] = summary["kernels"]
-    chk.notes["scope_certified"] = summary["certified"]
-    chk.notes["scope_shadowing_kernels"] = [s["kernel"] for s in summary["shadowing"]]
+                check_scope_kernel(chk, d, c, tag, e.name, summary)
+    note_summary(chk, summary)
     return summary
 
 
